@@ -360,6 +360,27 @@ func Edit(r *Rng, data []byte, k int) ([]byte, int) {
 	return out, introduced
 }
 
+// WeakTwins returns nBlocks full blocks (plus a short tail) in which every second block differs from its
+// predecessor but has the SAME rsync weak hash: two bytes 512 positions apart whose values differ by 128 are swapped
+// (the byte sum is unchanged and the weighted sum moves by 512*128 = 0 mod 2^16).
+func WeakTwins(r *Rng, nBlocks, tail int) []byte {
+	blk := r.Bytes(BS)
+	out := make([]byte, 0, nBlocks*BS+tail)
+	i := 0
+	for b := 0; b < nBlocks; b++ {
+		if b%2 == 0 {
+			// prepare a pair of positions whose values differ by 128
+			i = r.Intn(BS - 512)
+			blk[i+512] = blk[i] ^ 0x80
+		} else {
+			// the twin of the previous block
+			blk[i], blk[i+512] = blk[i+512], blk[i]
+		}
+		out = append(out, blk...)
+	}
+	return append(out, r.Bytes(tail)...)
+}
+
 // GenPair produces an (old,new) pair with the path-level relations of the properties' quantifiers.
 // The description lists which relations were used (for the evidence distribution).
 func GenPair(r *Rng, o PairOpts) (old, nw *Build, rel []string) {
@@ -377,7 +398,11 @@ func GenPair(r *Rng, o PairOpts) (old, nw *Build, rel []string) {
 		return r.Bytes(n)
 	}
 	for i := 0; i < nOld; i++ {
-		old.Entries = append(old.Entries, BEntry{Path: genPath(r, usedOld, ".dat"), Kind: 'f', Data: mk(genSize(r, o))})
+		data := mk(genSize(r, o))
+		if !o.SmallOnly && r.Intn(8) == 0 {
+			data = WeakTwins(r, 2+r.Intn(3), r.Pick(0, 1, 700))
+		}
+		old.Entries = append(old.Entries, BEntry{Path: genPath(r, usedOld, ".dat"), Kind: 'f', Data: data})
 	}
 	if r.Intn(3) == 0 {
 		old.Entries = append(old.Entries, BEntry{Path: genPath(r, usedOld, ".d"), Kind: 'd'})
